@@ -69,6 +69,7 @@ package encode
 //@   ensures [C08.enc.angle.len C01.enc.angle] (and (= (spec.numLen (select (arr *b) start)) result) (or (= result (int 1)) (= result (int 2)) (= result (int 4))))
 
 //@ contract (*Encoder).quantize
+//@   note counts C02
 //@   let inrange (and (fp.leq ((_ to_fp 8 24) RNE (- 128.0)) coord) (fp.lt coord ((_ to_fp 8 24) RNE 128.0)))
 //@   let c64 (fp.mul RNE ((_ to_fp 11 53) RNE coord) ((_ to_fp 11 53) RNE 64.0))
 //@   let r64 (fp.mul RNE ((_ to_fp 11 53) RNE result) ((_ to_fp 11 53) RNE 64.0))
@@ -80,6 +81,7 @@ package encode
 // ---- Encoder: protocol automaton (C10), selector read-back (C07)
 
 //@ contract (*Encoder).appendDefaultMetadata
+//@   note counts C02
 //@   requires Inv
 //@   requires (= e.mode #x00)
 //@   ensures [inv] Inv
@@ -90,6 +92,7 @@ package encode
 //@   ensures bufRegionOnly
 
 //@ contract (*Encoder).checkModeStyling
+//@   note counts C02
 //@   requires Inv
 //@   ensures [inv] Inv
 //@   modifies e.buf e.mode e.lod1 e.err mem.u8
@@ -98,18 +101,21 @@ package encode
 //@   ensures [C10.check.buf C01.check.buf] (ite (= (old e.mode) #x00) (and defaultMeta bufRegionOnly) (and (= e.buf (old e.buf)) (= mem.u8 (old mem.u8))))
 
 //@ contract (*Encoder).CSel
+//@   note counts C02
 //@   requires Inv
 //@   ensures [inv] Inv
 //@   modifies e.buf e.mode e.lod1 mem.u8
 //@   ensures [C07.enc.csel.read] (= result (old e.cSel))
 //@   ensures [C10.step.CSel] (proto.afterNeutral S0 S1)
 //@ contract (*Encoder).NSel
+//@   note counts C02
 //@   requires Inv
 //@   ensures [inv] Inv
 //@   modifies e.buf e.mode e.lod1 mem.u8
 //@   ensures [C07.enc.nsel.read] (= result (old e.nSel))
 //@   ensures [C10.step.NSel] (proto.afterNeutral S0 S1)
 //@ contract (*Encoder).LOD
+//@   note counts C02
 //@   requires Inv
 //@   ensures [inv] Inv
 //@   modifies e.buf e.mode e.lod1 mem.u8
@@ -118,12 +124,14 @@ package encode
 //@   ensures [C10.zero.LOD] (=> (and (= (old e.mode) #x00) (= (old e.lod0) (_ +zero 8 24)) (= (old e.lod1) (_ +zero 8 24))) (and (= lod0 (_ +zero 8 24)) (= lod1 (_ +oo 8 24))))
 
 //@ contract (*Encoder).SetCSel
+//@   note counts C02
 //@   requires Inv
 //@   ensures [inv] Inv
 //@   modifies e.buf e.mode e.lod1 e.err e.cSel mem.u8
 //@   ensures [C10.step.SetCSel] (proto.afterStyling S0 false S1)
 //@   ensures [C07.enc.setcsel] (= e.cSel (ite (proto.accepts S0 false) (bvand cSel #x3f) (old e.cSel)))
 //@ contract (*Encoder).SetNSel
+//@   note counts C02
 //@   requires Inv
 //@   ensures [inv] Inv
 //@   modifies e.buf e.mode e.lod1 e.err e.nSel mem.u8
@@ -131,6 +139,7 @@ package encode
 //@   ensures [C07.enc.setnsel] (= e.nSel (ite (proto.accepts S0 false) (bvand nSel #x3f) (old e.nSel)))
 
 //@ contract (*Encoder).SetCReg
+//@   note counts C02
 //@   requires Inv
 //@   ensures [inv] Inv
 //@   requires [validColor] (spec.validColor c)
@@ -139,6 +148,7 @@ package encode
 //@   ensures [C07.enc.setcreg.sel] (=> (proto.accepts S0 (proto.badAdj adj incr)) (and (= e.cSel (ite incr (bvand (bvadd (old e.cSel) #x01) #x3f) (old e.cSel))) (= e.nSel (old e.nSel))))
 
 //@ contract (*Encoder).SetNReg
+//@   note counts C02
 //@   requires Inv
 //@   ensures [inv] Inv
 //@   modifies e.buf e.mode e.lod1 e.err e.nSel e.scratch mem.u8
@@ -146,6 +156,7 @@ package encode
 //@   ensures [C07.enc.setnreg.sel] (=> (proto.accepts S0 (proto.badAdj adj incr)) (and (= e.nSel (ite incr (bvand (bvadd (old e.nSel) #x01) #x3f) (old e.nSel))) (= e.cSel (old e.cSel))))
 
 //@ contract (*Encoder).SetLOD
+//@   note counts C02
 //@   requires Inv
 //@   ensures [inv] Inv
 //@   modifies e.buf e.mode e.err e.lod0 e.lod1 mem.u8
@@ -153,6 +164,7 @@ package encode
 //@   ensures [C10.setlod.fields] (=> (proto.accepts S0 false) (and (= e.lod0 lod0) (= e.lod1 lod1)))
 
 //@ contract (*Encoder).StartPath
+//@   note counts C02
 //@   requires Inv
 //@   ensures [inv] Inv
 //@   modifies e.buf e.mode e.lod1 e.err e.highResolutionCoordinates mem.u8
@@ -163,6 +175,7 @@ package encode
 
 
 //@ contract (*Encoder).flushDrawOps
+//@   note counts C02
 //@   requires InvW
 //@   ensures [inv] Inv
 //@   requires [verb] (or (= e.drawOp #x00) (enc.isVerb e.drawOp))
@@ -174,6 +187,7 @@ package encode
 //@   invariant 1 [flush.arcs] (and (= nA (int 6)) (bvsle (int 0) i) (bvsle i (len e.drawArgs)) (bvsle (int 0) j) (bvsle (int 0) n) (bvsle n (len e.drawArgs)) (bvsle (int 1) m) (bvsle m n) (bvsle j m) (bvsle (bvadd i (bvadd (bvmul j (int 6)) (bvmul (bvsub n m) (int 6)))) (len e.drawArgs)))
 
 //@ contract (*Encoder).draw
+//@   note counts C02
 //@   requires Inv
 //@   ensures [inv] Inv
 //@   requires [verb] (enc.isVerb drawOp)
@@ -183,6 +197,7 @@ package encode
 //@   ensures [verb.pending] (or (= e.drawOp #x00) (enc.isVerb e.drawOp))
 
 //@ contract (*Encoder).arcTo
+//@   note counts C02
 //@   requires Inv
 //@   ensures [inv] Inv
 //@   requires [verb] (or (= drawOp #x41) (= drawOp #x61))
@@ -192,6 +207,7 @@ package encode
 //@   ensures [verb.pending] (or (= e.drawOp #x00) (enc.isVerb e.drawOp))
 
 //@ contract (*Encoder).ClosePathEndPath
+//@   note counts C02
 //@   requires Inv
 //@   ensures [inv] Inv
 //@   requires [verb.pending] (or (= e.drawOp #x00) (enc.isVerb e.drawOp))
@@ -200,6 +216,7 @@ package encode
 //@   ensures [verb.pending] (or (= e.drawOp #x00) (enc.isVerb e.drawOp))
 
 //@ contract (*Encoder).AbsHLineTo
+//@   note counts C02
 //@   requires Inv
 //@   ensures [inv] Inv
 //@   requires [verb.pending] (or (= e.drawOp #x00) (enc.isVerb e.drawOp))
@@ -208,6 +225,7 @@ package encode
 //@   ensures [verb.pending] (or (= e.drawOp #x00) (enc.isVerb e.drawOp))
 
 //@ contract (*Encoder).RelHLineTo
+//@   note counts C02
 //@   requires Inv
 //@   ensures [inv] Inv
 //@   requires [verb.pending] (or (= e.drawOp #x00) (enc.isVerb e.drawOp))
@@ -216,6 +234,7 @@ package encode
 //@   ensures [verb.pending] (or (= e.drawOp #x00) (enc.isVerb e.drawOp))
 
 //@ contract (*Encoder).AbsVLineTo
+//@   note counts C02
 //@   requires Inv
 //@   ensures [inv] Inv
 //@   requires [verb.pending] (or (= e.drawOp #x00) (enc.isVerb e.drawOp))
@@ -224,6 +243,7 @@ package encode
 //@   ensures [verb.pending] (or (= e.drawOp #x00) (enc.isVerb e.drawOp))
 
 //@ contract (*Encoder).RelVLineTo
+//@   note counts C02
 //@   requires Inv
 //@   ensures [inv] Inv
 //@   requires [verb.pending] (or (= e.drawOp #x00) (enc.isVerb e.drawOp))
@@ -232,6 +252,7 @@ package encode
 //@   ensures [verb.pending] (or (= e.drawOp #x00) (enc.isVerb e.drawOp))
 
 //@ contract (*Encoder).AbsLineTo
+//@   note counts C02
 //@   requires Inv
 //@   ensures [inv] Inv
 //@   requires [verb.pending] (or (= e.drawOp #x00) (enc.isVerb e.drawOp))
@@ -240,6 +261,7 @@ package encode
 //@   ensures [verb.pending] (or (= e.drawOp #x00) (enc.isVerb e.drawOp))
 
 //@ contract (*Encoder).RelLineTo
+//@   note counts C02
 //@   requires Inv
 //@   ensures [inv] Inv
 //@   requires [verb.pending] (or (= e.drawOp #x00) (enc.isVerb e.drawOp))
@@ -248,6 +270,7 @@ package encode
 //@   ensures [verb.pending] (or (= e.drawOp #x00) (enc.isVerb e.drawOp))
 
 //@ contract (*Encoder).AbsSmoothQuadTo
+//@   note counts C02
 //@   requires Inv
 //@   ensures [inv] Inv
 //@   requires [verb.pending] (or (= e.drawOp #x00) (enc.isVerb e.drawOp))
@@ -256,6 +279,7 @@ package encode
 //@   ensures [verb.pending] (or (= e.drawOp #x00) (enc.isVerb e.drawOp))
 
 //@ contract (*Encoder).RelSmoothQuadTo
+//@   note counts C02
 //@   requires Inv
 //@   ensures [inv] Inv
 //@   requires [verb.pending] (or (= e.drawOp #x00) (enc.isVerb e.drawOp))
@@ -264,6 +288,7 @@ package encode
 //@   ensures [verb.pending] (or (= e.drawOp #x00) (enc.isVerb e.drawOp))
 
 //@ contract (*Encoder).AbsQuadTo
+//@   note counts C02
 //@   requires Inv
 //@   ensures [inv] Inv
 //@   requires [verb.pending] (or (= e.drawOp #x00) (enc.isVerb e.drawOp))
@@ -272,6 +297,7 @@ package encode
 //@   ensures [verb.pending] (or (= e.drawOp #x00) (enc.isVerb e.drawOp))
 
 //@ contract (*Encoder).RelQuadTo
+//@   note counts C02
 //@   requires Inv
 //@   ensures [inv] Inv
 //@   requires [verb.pending] (or (= e.drawOp #x00) (enc.isVerb e.drawOp))
@@ -280,6 +306,7 @@ package encode
 //@   ensures [verb.pending] (or (= e.drawOp #x00) (enc.isVerb e.drawOp))
 
 //@ contract (*Encoder).AbsSmoothCubeTo
+//@   note counts C02
 //@   requires Inv
 //@   ensures [inv] Inv
 //@   requires [verb.pending] (or (= e.drawOp #x00) (enc.isVerb e.drawOp))
@@ -288,6 +315,7 @@ package encode
 //@   ensures [verb.pending] (or (= e.drawOp #x00) (enc.isVerb e.drawOp))
 
 //@ contract (*Encoder).RelSmoothCubeTo
+//@   note counts C02
 //@   requires Inv
 //@   ensures [inv] Inv
 //@   requires [verb.pending] (or (= e.drawOp #x00) (enc.isVerb e.drawOp))
@@ -296,6 +324,7 @@ package encode
 //@   ensures [verb.pending] (or (= e.drawOp #x00) (enc.isVerb e.drawOp))
 
 //@ contract (*Encoder).AbsCubeTo
+//@   note counts C02
 //@   requires Inv
 //@   ensures [inv] Inv
 //@   requires [verb.pending] (or (= e.drawOp #x00) (enc.isVerb e.drawOp))
@@ -304,6 +333,7 @@ package encode
 //@   ensures [verb.pending] (or (= e.drawOp #x00) (enc.isVerb e.drawOp))
 
 //@ contract (*Encoder).RelCubeTo
+//@   note counts C02
 //@   requires Inv
 //@   ensures [inv] Inv
 //@   requires [verb.pending] (or (= e.drawOp #x00) (enc.isVerb e.drawOp))
@@ -312,6 +342,7 @@ package encode
 //@   ensures [verb.pending] (or (= e.drawOp #x00) (enc.isVerb e.drawOp))
 
 //@ contract (*Encoder).ClosePathAbsMoveTo
+//@   note counts C02
 //@   requires Inv
 //@   ensures [inv] Inv
 //@   requires [verb.pending] (or (= e.drawOp #x00) (enc.isVerb e.drawOp))
@@ -320,6 +351,7 @@ package encode
 //@   ensures [verb.pending] (or (= e.drawOp #x00) (enc.isVerb e.drawOp))
 
 //@ contract (*Encoder).ClosePathRelMoveTo
+//@   note counts C02
 //@   requires Inv
 //@   ensures [inv] Inv
 //@   requires [verb.pending] (or (= e.drawOp #x00) (enc.isVerb e.drawOp))
@@ -328,6 +360,7 @@ package encode
 //@   ensures [verb.pending] (or (= e.drawOp #x00) (enc.isVerb e.drawOp))
 
 //@ contract (*Encoder).AbsArcTo
+//@   note counts C02
 //@   requires Inv
 //@   ensures [inv] Inv
 //@   requires [verb.pending] (or (= e.drawOp #x00) (enc.isVerb e.drawOp))
@@ -336,6 +369,7 @@ package encode
 //@   ensures [verb.pending] (or (= e.drawOp #x00) (enc.isVerb e.drawOp))
 
 //@ contract (*Encoder).RelArcTo
+//@   note counts C02
 //@   requires Inv
 //@   ensures [inv] Inv
 //@   requires [verb.pending] (or (= e.drawOp #x00) (enc.isVerb e.drawOp))
@@ -344,6 +378,7 @@ package encode
 //@   ensures [verb.pending] (or (= e.drawOp #x00) (enc.isVerb e.drawOp))
 
 //@ contract (*Encoder).Bytes
+//@   note counts C02
 //@   requires Inv
 //@   ensures [inv] Inv
 //@   modifies e.buf e.mode e.lod1 mem.u8
@@ -352,6 +387,7 @@ package encode
 //@   ensures [C10.bytes.result C17.bytes.result] (=> (= (old e.err) nil.Iface) (= result.0 e.buf))
 
 //@ contract (*Encoder).Reset
+//@   note counts C02
 //@   modifies e mem.u8
 //@   ensures [inv] Inv
 //@   ensures [C10.step.Reset C17.enc.reset.proto] (= S1 P.Styling)
